@@ -237,3 +237,30 @@ def interpolation_grid(k, points=21):
             t[seg + 1] = 1.0 - w
             out.append(t)
     return out
+
+
+# ------------------------------------------------------------------ structured RDM families
+def grid_rdms(n_cond, levels, d=1):
+    """every distinct non-zero RDM (squared euclidean distances) of n_cond points placed on the
+    integer grid levels^d, in order of first appearance (translations / reflections of a
+    configuration give the same RDM and are listed once)"""
+    pts = list(itertools.product(levels, repeat=d))
+    seen = set()
+    out = []
+    for cfg in itertools.product(pts, repeat=n_cond):
+        v = tuple(float(sum((a - b) ** 2 for a, b in zip(cfg[i], cfg[j]))) for i, j in pairs(n_cond))
+        if not any(v) or v in seen:
+            continue
+        seen.add(v)
+        out.append(list(v))
+    return out
+
+
+def regressors_independent(method, basis):
+    """the basis RDMs (mean removed for correlation) are linearly independent on the entries
+    present in all of them - otherwise the weights are not identified"""
+    keep = present(basis[0], basis[1:])
+    X = np.array([[b[e] for e in keep] for b in basis], dtype=float)
+    if method in ('corr', 'corr_cov'):
+        X = X - X.mean(axis=1, keepdims=True)
+    return int(np.linalg.matrix_rank(X)) == len(basis)
